@@ -24,7 +24,7 @@ from cexpr import CT, OPS, lit, leaves, render
 
 STRIDE = 128
 FAMS = ["bin", "un", "cast", "cond", "init", "arg", "ret", "assign", "test", "opasg", "incdec", "d2l", "d2r",
-        "cc", "ccinit", "ccarg", "ccret", "ccassign", "ptr"]
+        "cc", "ccinit", "ccarg", "ccret", "ccassign", "ptr", "aopasg", "aincdec"]
 
 
 PTROP = {"pdiff": "-", "plt": "<", "ple": "<=", "pgt": ">", "pge": ">=", "peq": "==", "pne": "!="}
@@ -66,9 +66,9 @@ def case_code(n, v):
     params = ", ".join("%s p%d" % (CT[l["t"]], i) for i, l in enumerate(lv)) if mode == 1 else "void"
     args = ", ".join("g%d_%d" % (n, i) for i in range(len(lv))) if mode == 1 else ""
     td = CT.get(v["d"], "int")
-    if fam in ("opasg", "incdec"):
-        ta = CT[lv[0]["t"]]
-        if fam == "opasg":
+    if fam in ("opasg", "incdec", "aopasg", "aincdec"):
+        ta = ("_Atomic " if fam[0] == "a" else "") + CT[lv[0]["t"]]
+        if fam in ("opasg", "aopasg"):
             ex = "(x %s= %s)" % (OPS[e["op"]], src(1, lv[1]))
         else:
             ex = {"preinc": "(++x)", "predec": "(--x)", "postinc": "(x++)", "postdec": "(x--)"}[v["op"]]
@@ -107,7 +107,7 @@ def mkprog(cases):
 
 def expected(v):
     exp = {"v": [v["u"], str(v["sz"]), "1" if v["sg"] else "0"]}
-    if v["f"] in ("assign", "opasg", "incdec"):
+    if v["f"] in ("assign", "opasg", "incdec", "aopasg", "aincdec"):
         exp["o"] = [v["obj"]]
     return exp
 
@@ -123,9 +123,9 @@ def classify(v, exp, got):
     sh = cexpr.shape(v["e"])
     if fam in ("init", "arg", "ret", "assign"):
         sh = "%s<-%s" % (v["d"], sh)
-    elif fam == "incdec":
+    elif fam in ("incdec", "aincdec"):
         sh = "%s(%s)" % (v["op"], sh)
-    elif fam == "opasg":
+    elif fam in ("opasg", "aopasg"):
         sh = "asg-" + sh
     if isinstance(got, tuple):
         return "%s:%s:crash-or-rejected" % (fam, sh)
@@ -261,7 +261,7 @@ def run(ctx):
     tree = ctx.build()
     ctx.phase("build done")
     inv = ["TypeInv", "ValueInv", "ObjInv", "LoadInv", "SanityInv", "PtrInv"]
-    shapes = '{"bin","un","cast","cond","cc","ptr","asg","test","opasg","incdec"}'
+    shapes = '{"bin","un","cast","cond","cc","ptr","asg","test","opasg","incdec","aopasg","aincdec"}'
     cexpr.model_check(ctx, "ExprMC_quick.cfg" if q else "ExprMC.cfg",
                       "chibicc's typing/cast/register design does not compute the C11 value or type", inv,
                       workers=12 if q else 16, sensitivity="one" if q else True, Shapes=shapes)
